@@ -39,6 +39,11 @@ Two families beyond plain values:
     bound types spelled explicitly as references, `bind<I, decltype(f), T&, ...>(f, x, ...)` and
     `bind<decltype(f), const T&, ...>(f, x, ...)`: a target taking `const T&...` must receive the pool objects x
     themselves (theorem bind_reference_identity; same value model as std::ref-bound results).
+  * noexcept getters — the getter(s) of compose(s, g) / compose(s, g1, g2) are functor classes whose call operator is
+    declared `noexcept` (`av::NxRec`; for the model an ordinary non-throwing target: noexcept has no effect on what a
+    correct adaptor does) while the setter throws: the exception must reach the caller / the enclosing exception_catch /
+    the caller of emit() exactly as with an ordinary getter; a conditional `noexcept(...)` on the adaptor's call operator
+    that looks at the getter only turns it into std::terminate (reported through the terminate marker).
 """
 import json
 import os
@@ -223,6 +228,10 @@ def family_cases(ctx, g):
     for _ in range(reps):
         for i, (shape, w) in enumerate(BOUND_SHAPES):
             out.append(("bound-" + shape, g.bound_case(rng.below(3), "DSG"[i % 3], shape, w)))
+    # --- getters with a noexcept call operator under compose(), setter throws: the exception leaves the composite
+    for _ in range(reps):
+        for i, (shape, two, w) in enumerate(NX_SHAPES):
+            out.append(("noexcept-getter", g.nx_case(rng.below(3) if i % 4 else 0, "DSG"[i % 3], shape, 1 + (i + rng.below(2)) % 2, two, w)))
     cases = []
     for fam, c in out:
         c["origin"] = "gen:" + fam
@@ -230,6 +239,9 @@ def family_cases(ctx, g):
     return cases
 
 
+NX_SHAPES = [("plain", False, None), ("plain", False, None), ("plain", False, None), ("catch", False, None),
+             ("catch-partial", False, None), ("catch-unhandled", False, None), ("plain", True, None), ("catch", True, None),
+             ("plain", False, "TO"), ("catch", False, "H"), ("plain", False, "SL"), ("plain", False, "B")]
 BOUND_SHAPES = [("json", None), ("json", None), ("json", None), ("json", "TO"), ("json", "H"), ("json", "SL"),
                 ("json-ret", None), ("json-ret", "SL"), ("json-ret", "H"), ("json-ret", None),
                 ("ref", None), ("ref", None), ("ref", None), ("ref", "TO"), ("ref", "H"), ("ref", "SL"), ("ref", "ECT")]
@@ -470,7 +482,7 @@ def correspondence(ctx):
             "retype_reference_parameter_cases": 0, "retype_converting_temporaries": {"const T&": 0, "T&&": 0, "Str": 0},
             "thrown_types": {"K1": 0, "K2": 0}, "partial_catcher_cases": 0, "exception_reached_caller": 0,
             "partial_catcher_passed_exception_on": 0,
-            "json_bound_value_cases": 0, "json_returned_by_bind_return": 0, "reference_typed_bound_argument_cases": 0,
+            "noexcept_getter_cases": 0, "json_bound_value_cases": 0, "json_returned_by_bind_return": 0, "reference_typed_bound_argument_cases": 0,
             "bound_object_received_by_target": 0}
     pairs = set()
     distinct = set()
@@ -503,6 +515,8 @@ def correspondence(ctx):
             dist["reference_typed_bound_argument_cases"] += 1
             if "cref:" in (r["impl"] or "").split(" res=")[0]:
                 dist["bound_object_received_by_target"] += 1
+        if ag.c10_has_nx(c["expr"]):
+            dist["noexcept_getter_cases"] += 1
         if "PC" in toks:
             dist["partial_catcher_cases"] += 1
             if (r["impl"] or "").endswith(("res=threw", "res=threw2")):
